@@ -26,7 +26,7 @@ TRUSTED_BASE = [
     "Lean 4.33.0 kernel; axioms propext, Classical.choice, Quot.sound only (no native_decide, no bv_decide, no own axioms, no sorry)",
     "the hand-written Lean model is tied to /repo by the correspondence run of this check (differential execution of model and implementation on the same operation lines); it is trusted only as far as that run exercised it",
     "Go harness + canonicaliser (/verif/harness) and the orchestrator (/verif/bin)",
-    "modelled, not verified: tidwall/btree (as a sorted map), Pebble, Go runtime/sync/net, strconv float parsing/formatting, IEEE arithmetic, protobuf, OS/file system, pointer wiring inside ds/list and ds/zset (checked on the implementation by VerifCheck hooks)",
+    "modelled, not verified: tidwall/btree (as a sorted map), Pebble, Go runtime/sync/net, strconv float parsing/formatting, IEEE arithmetic, protobuf, OS/file system; pointer wiring inside ds/zset is checked on the implementation by the VerifCheck hook (ds/list has a pointer-level model with proofs, Model/LinkedList.lean, tied by a whole-structure comparison in C02)",
 ]
 
 
